@@ -165,7 +165,29 @@ fn describe(rec: &Value) -> String {
     s
 }
 
+/// Inputs on which the compiler does not come back cost a minute each, and proptest would shrink such a failure by
+/// running hundreds of variants of it. While a run is in progress they are therefore set aside unshrunk (and after
+/// three of them the remaining cases of the run are skipped); `run` reports them at the end. A replay judges directly.
+static DEFER_TIME_BUDGET: std::sync::atomic::AtomicBool = std::sync::atomic::AtomicBool::new(false);
+static DEFERRED: std::sync::Mutex<Vec<Failure>> = std::sync::Mutex::new(Vec::new());
+
 pub fn check_record(rec: &Value) -> Verdict {
+    let deferring = DEFER_TIME_BUDGET.load(std::sync::atomic::Ordering::SeqCst);
+    if deferring && DEFERRED.lock().map(|d| d.len() >= 3).unwrap_or(false) {
+        return Verdict::pass(None, vec!["skipped_after_time_budget_failures".into()]);
+    }
+    match check_record_inner(rec) {
+        Verdict::Fail { signature, detail } if deferring && signature.starts_with("time-budget") => {
+            if let Ok(mut d) = DEFERRED.lock() {
+                d.push(Failure { signature, detail, record: rec.clone() });
+            }
+            Verdict::pass(None, vec!["deferred_time_budget_failure".into()])
+        }
+        v => v,
+    }
+}
+
+fn check_record_inner(rec: &Value) -> Verdict {
     let total_len: usize = rec["files"].as_array().map(|a| a.iter().map(|f| f[1].as_str().map(|s| s.len()).unwrap_or(0)).sum()).unwrap_or(0);
     let reply = ask(rec, 8_000);
     let reply = match reply {
@@ -538,6 +560,15 @@ pub fn run(ctx: &mut Ctx) {
     if !ctx.replay_tier(&check_record) {
         return;
     }
+    DEFER_TIME_BUDGET.store(true, std::sync::atomic::Ordering::SeqCst);
+    run_parts(ctx);
+    DEFER_TIME_BUDGET.store(false, std::sync::atomic::Ordering::SeqCst);
+    if let Ok(mut d) = DEFERRED.lock() {
+        ctx.failures.extend(d.drain(..));
+    }
+}
+
+fn run_parts(ctx: &mut Ctx) {
     if ctx.tier == Tier::Thorough && std::env::var("VERIF_FUZZ_ONLY").is_ok() {
         // exploration aid: only the coverage-guided stage
         fuzz_campaign(ctx, &repo_inputs());
@@ -628,6 +659,97 @@ pub fn run(ctx: &mut Ctx) {
         };
         ctx.run_enum("types_x_places", per * 20, true, make, |i| check_record(&make(i)));
     }
+    // ---- every kind of array size x every place an array can be declared
+    {
+        const SIZES: &[&str] = &[
+            "1", "2", "0", "-1", "-2147483648", "2147483647", "2147483648", "4294967295", "4294967296", "1073741824", "1073741825", "18446744073709551615", "18446744073709551616", "0x7fffffff", "1u", "0u - 1u",
+            "1 - 2", "(int)-1", "(uint)-1", "true", "false", "1.5", "2.0", "sizeof(int)", "sizeof(float4) * 1000000000", "ZN", "ZN - 5", "ZN * ZN * ZN * ZN * ZN", "ZE_A", "(int)ZE_B", "ZEnum::ZE_B", "1 << 31", "1 << 40", "1u << 31", "-(-3)", "~0", "!0", "3 % 2", "7 / 0", "",
+        ];
+        const PLACES: &[&str] = &[
+            "[numthreads(1, 1, 1)] void cs() { float a[@]; a[0] = 1; }\n",
+            "static float g[@];\n[numthreads(1, 1, 1)] void cs() { g[0] = 1; }\n",
+            "groupshared uint g[@];\n[numthreads(1, 1, 1)] void cs() { g[0] = 1; }\n",
+            "struct W { float a[@]; int n; };\n[numthreads(1, 1, 1)] void cs() { W w; w.n = 1; }\n",
+            "struct W { float a[@]; int n; };\nRWStructuredBuffer<W> g;\n[numthreads(1, 1, 1)] void cs() { g[0].n = 1; }\n",
+            "struct W { float3 a[2][@]; int n; };\nStructuredBuffer<W> g;\n[numthreads(1, 1, 1)] void cs() { g[0].n; }\n",
+            "cbuffer C { float4 a[@]; int n; };\n[numthreads(1, 1, 1)] void cs() { n; }\n",
+            "float h(float a[@]) { return a[0]; }\n[numthreads(1, 1, 1)] void cs() { }\n",
+            "typedef int TD[@];\nTD g;\n[numthreads(1, 1, 1)] void cs() { g; }\n",
+            "Texture2D<float4> g[@];\n[numthreads(1, 1, 1)] void cs() { g[0]; }\n",
+            "RWStructuredBuffer<uint> g[@][2];\n[numthreads(1, 1, 1)] void cs() { g[0][1][0] = 1; }\n",
+            "struct W { float a[@]; };\nRWByteAddressBuffer g;\n[numthreads(1, 1, 1)] void cs() { W w = g.Load<W>(0); g.Store<W>(16, w); }\n",
+            "[numthreads(1, 1, 1)] void cs() { int a[@] = { 1, 2 }; uint s = sizeof(int[@]); }\n",
+        ];
+        let per = (SIZES.len() * PLACES.len()) as u64;
+        let make = |i: u64| {
+            let size = SIZES[(i % per) as usize / PLACES.len()];
+            let place = PLACES[(i % per) as usize % PLACES.len()];
+            let v = i / per; // 5 targets x validate
+            let text = format!("static const int ZN = 7;\nenum ZEnum {{ ZE_A, ZE_B = 3 }};\n{}Pipeline P {{ ComputeShader = cs; }}\n", place.replace('@', size));
+            wrap("array_sizes", text, &((v % 5) as usize, 0, (v / 5) % 2 == 1, 1))
+        };
+        ctx.run_enum("array_sizes_x_places", per * 10, true, make, |i| check_record(&make(i)));
+    }
+    // ---- definitions that mention the entity they define
+    {
+        const SELF: &[&str] = &[
+            "enum E { A = sizeof(E) };\n",
+            "enum E { A = (E)0 };\n",
+            "enum E { A = 1, B = ~(E)A };\n",
+            "enum E { A = A };\n",
+            "enum E { A = B, B = A };\n",
+            "enum E { A = E::A + 1 };\n",
+            "enum E : E { A };\n",
+            "struct S { int a[sizeof(S)]; };\n",
+            "struct S { S a[2]; };\n",
+            "struct S { StructuredBuffer<S> b; };\nS g;\n",
+            "struct S : S { int a; };\n",
+            "struct S { int a; int f() { S s; s.a = a; return s.f(); } };\n",
+            "struct S { int a; S copy() { return this; } S other(S o) { return o; } };\n",
+            "template<typename T> struct W { T v; };\nstruct S { W<S> w; };\n",
+            "template<typename T> struct W { T v; };\nstruct S { W<S> w; };\nStructuredBuffer<S> g;\n",
+            "template<typename T> struct W { T v[2]; };\nstruct S { int a; W<W<S> > w; };\nS g;\n",
+            "template<typename T> struct W { W<T> w; };\nW<int> g;\n",
+            "template<typename T> struct W { W<W<T> > w; };\nW<int> g;\n",
+            "template<typename T> struct W { T v; };\nW<W<W<W<W<W<W<W<int> > > > > > > > g;\n",
+            "struct A;\nstruct B { A a; };\nstruct A { B b; };\nA g;\n",
+            "struct A { int x; };\nstruct B { A a; };\nstruct A { B b; };\n",
+            "typedef S S;\n",
+            "typedef int T;\ntypedef T T;\nT g;\n",
+            "typedef float A[sizeof(A)];\n",
+            "static const int c = c;\n",
+            "static const int c = sizeof(c);\n",
+            "static const int a = b;\nstatic const int b = a;\n",
+            "static int x[2] = { x[1], x[0] };\n",
+            "int f(int a = f(1)) { return a; }\n",
+            "int f(int a = sizeof(f)) { return a; }\n",
+            "int f(int a, int b = a) { return b; }\n",
+            "template<typename T> T f(T v = f<T>(0)) { return v; }\nint g() { return f<int>(); }\n",
+            "template<typename T> T f(T v) { return f<T>(v); }\nint g() { return f<int>(1); }\n",
+            "template<typename T> T f(T v) { return f<float>(v) + f<int>(v); }\nint g() { return f(1); }\n",
+            "template<int N> int f() { return f<N + 1>(); }\nint g() { return f<0>(); }\n",
+            "namespace N { namespace N { int N; } }\nint f() { return N::N::N; }\n",
+            "namespace N { int a = N::a; }\n",
+            "int f() { int x = x; return x; }\n",
+            "int f() { int a[2] = { a[0], 1 }; return a[1]; }\n",
+            "void f() { f(); }\nvoid g() { h(); }\nvoid h() { g(); }\n",
+            "#define A A\n#define B C\n#define C B\nint A = B;\n",
+            "#define F(x) F(x) + G(x)\n#define G(x) F(x)\nint v = F(1);\n",
+            "#include \"main.rssl\"\n",
+            "#include \"inc.h\"\n#include \"inc.h\"\nint v = included_fn(1);\n",
+            "cbuffer C { C c; };\n",
+            "cbuffer C { int C; };\nint f() { return C; }\n",
+            "ConstantBuffer<ConstantBuffer<int> > g;\n",
+            "Pipeline P { ComputeShader = P; }\n",
+            "[numthreads(1, 1, 1)] void cs() { cs(); }\nPipeline P { ComputeShader = cs; }\n",
+        ];
+        let n = SELF.len() as u64;
+        let make = |i: u64| {
+            let v = i / n; // 5 targets x {all, nopipe} x validate
+            wrap("self_reference", SELF[(i % n) as usize].to_string(), &((v % 5) as usize, ((v / 5) % 2) as u8, (v / 10) % 2 == 1, 1))
+        };
+        ctx.run_enum("self_references", n * 20, true, make, |i| check_record(&make(i)));
+    }
     // ---- chains of comparison operators around a parenthesised operand: `a < a < ... > (a)` can be read as nested
     // template argument lists; the time to decide must not explode
     {
@@ -640,6 +762,33 @@ pub fn run(ctx: &mut Ctx) {
             wrap("comparison_chain", text, &((i % 5) as usize, 1, false, 1))
         };
         ctx.run_enum("comparison_chains", 160, true, make, |i| check_record(&make(i)));
+    }
+    // ---- programs whose identifiers sit on reserved words and on the name_N forms the exporters generate for them
+    ctx.run_prop(
+        "renamed_programs",
+        3_000 * scale,
+        || (progen::choices_strategy(400), 1u8..5, any::<u64>(), config_strategy()),
+        |(ch, class, seed, c): &(Vec<u32>, u8, u64, (usize, u8, bool, u8))| {
+            let r = crate::c15::make_case_with(ch, *class, c.0.min(2), *seed, true);
+            wrap("renamed_program", r["renamed"].as_str().unwrap_or("").to_string(), c)
+        },
+        check_record,
+    );
+    {
+        // a reserved word on a struct member / enum value next to its generated replacement name_0, name_1
+        const WORDS: [&str; 10] = ["kernel", "vertex", "fragment", "device", "thread", "main", "interface", "vector", "matrix", "half"];
+        let make = |i: u64| {
+            let w = WORDS[(i % 10) as usize];
+            let shape = (i / 10) % 4;
+            let text = match shape {
+                0 => format!("struct S {{ float {w}; float {w}_0; }};\nfloat f(S s) {{ return s.{w} + s.{w}_0; }}\n"),
+                1 => format!("struct S {{ float {w}; float {w}_0; float {w}_1; }};\nfloat f(S s, float {w}_2) {{ return s.{w} + s.{w}_0 + s.{w}_1 + {w}_2; }}\n"),
+                2 => format!("enum E {{ {w}, {w}_0, {w}_1 }};\nint f() {{ return (int)E::{w} + (int)E::{w}_0 + (int)E::{w}_1; }}\n"),
+                _ => format!("static int {w}_0 = 1;\nstruct S {{ int {w}; int m() {{ int {w}_1 = 2; return {w} + {w}_0 + {w}_1; }} }};\n"),
+            };
+            wrap("reserved_next_to_generated", text, &(((i / 40) % 5) as usize, 1, false, 1))
+        };
+        ctx.run_enum("reserved_names_next_to_generated_names", 200, true, make, |i| check_record(&make(i)));
     }
     ctx.run_prop(
         "property_blocks",
